@@ -383,7 +383,32 @@ func c10Draw(r *simrt.Rng, vg *gen.G, s *treeState, faults bool) (Op, bool) {
 		}
 	}
 	op.A["enc"] = enc
-	if faults && r.Intn(3) == 0 {
+	if _, isInt := tv.GetValue().(*gpb.TypedValue_IntVal); faults && strings.HasPrefix(op.A["ykind"], "int") && (isInt || tv.GetLeaflistVal() != nil) && r.Intn(2) == 0 {
+		// JSON tolerance the other way round: a uint_val for a signed leaf. Whether that is
+		// accepted is ygot's choice; if it is, the leaf must hold the value that was sent
+		toU := func(x *gpb.TypedValue) *gpb.TypedValue {
+			if i, ok := x.GetValue().(*gpb.TypedValue_IntVal); ok && i.IntVal > 0 {
+				return &gpb.TypedValue{Value: &gpb.TypedValue_UintVal{UintVal: uint64(i.IntVal)}}
+			}
+			return nil
+		}
+		if u := toU(tv); u != nil {
+			tv = u
+			op.K, op.A["bad"], op.A["tolerate"] = "set-bad", "uint-for-signed", "1"
+		} else if ll := tv.GetLeaflistVal(); ll != nil && len(ll.Element) > 0 {
+			var es []*gpb.TypedValue
+			for _, e := range ll.Element {
+				if u := toU(e); u != nil {
+					es = append(es, u)
+				}
+			}
+			if len(es) == len(ll.Element) {
+				tv = &gpb.TypedValue{Value: &gpb.TypedValue_LeaflistVal{LeaflistVal: &gpb.ScalarArray{Element: es}}}
+				op.K, op.A["bad"], op.A["tolerate"] = "set-bad", "uint-for-signed", "1"
+			}
+		}
+	}
+	if faults && op.K != "set-bad" && r.Intn(3) == 0 {
 		switch r.Intn(5) {
 		case 4: // JSON tolerance again, but the int_val does not fit the unsigned leaf's width
 			et := lt.Field.Type
@@ -480,6 +505,10 @@ func c10Apply(s *treeState, op Op) *Violation {
 			s.st.logf("set-bad %s (%s) -> error", path, op.arg("bad"))
 			return nil // nothing is promised after a failed set; the model is re-read from the tree
 		}
+		if op.arg("bad") == "uint-for-signed" {
+			s.st.Probes["uint_for_signed_accepted"]++
+			goto accepted
+		}
 		if op.arg("bad") == "int-overflow" {
 			// the value cannot be represented in the leaf's type: whatever the tree now holds, it is not v
 			return violation("C10", "accepted-unrepresentable", "C10:accepted:int-overflow:"+ctx, "SetNode(%s, %s, TolerateJSONInconsistencies) succeeded although the value does not fit the leaf's type %s", path, model.DescribeTV(tv), op.arg("gotype"))
@@ -497,6 +526,7 @@ func c10Apply(s *treeState, op Op) *Violation {
 		s.st.logf("set %s %s -> error %v", path, model.DescribeTV(tv), err)
 		return nil
 	}
+accepted:
 	s.st.Probes["set_ok"]++
 	s.st.Probes["set_ok:"+op.arg("enc")]++
 	s.st.Probes["set_ok:ykind:"+op.arg("ykind")]++
